@@ -125,6 +125,22 @@ def _requests(tier):
     return out
 
 
+DIRS = {b"", b"/a", b"/a/deep", b"/emptydir", b"/md", b"/md/cur", b"/md/new", b"/md/tmp", b"/gm", b"/.cap", b"/z.zip", b"/z.zip/sub"}
+
+
+def _names_dir_or_empty(sel: bytes) -> bool:
+    """Does the selector, once '/.' steps, doubled and trailing slashes and a
+    one-character type prefix are taken out, name a directory (whose listing may
+    legitimately be empty: every child is refused under that spelling) or the
+    empty file?"""
+    s = alphabet.decoded_selector("gopher", sel)
+    parts = [p for p in s.split(b"/") if p not in (b"", b".")]
+    cands = {b"".join(b"/" + p for p in parts)}
+    if parts and len(parts[0]) == 1:
+        cands.add(b"".join(b"/" + p for p in parts[1:]))
+    return any(c in DIRS or c in worlds.EMPTY_OK for c in cands)
+
+
 _world = {}
 
 
@@ -140,21 +156,12 @@ def _get_world(handlers):
 
 def _case_a(handlers, data, tls, sel_hint=None):
     w = _get_world(handlers)
-    old = signal.signal(signal.SIGALRM, _alarm)
-    signal.alarm(10)
-    try:
-        r = w.serve(data, tls)
-    finally:
-        signal.alarm(0)
-        signal.signal(signal.SIGALRM, old)
+    r = w.serve(data, tls)
     may_be_empty = False
     if not r.out:
-        # an empty document / empty directory legitimately has no bytes in plain Gopher
+        # plain Gopher: an empty document or a menu without servable entries has no bytes
         m = re.match(rb"^([^\t\r\n]*)", data)
-        s = alphabet.decoded_selector("gopher", m.group(1))
-        may_be_empty = s in worlds.EMPTY_OK or s.rstrip(b".").rstrip(b"/") in worlds.EMPTY_OK
-        if sel_hint is not None:
-            may_be_empty = may_be_empty or alphabet.decoded_selector("gopher", sel_hint) in worlds.EMPTY_OK
+        may_be_empty = _names_dir_or_empty(m.group(1)) or (sel_hint is not None and _names_dir_or_empty(sel_hint))
     return r, judge(r, data, may_be_empty)
 
 
@@ -189,6 +196,12 @@ MENU_B = [
     ("http", b"/a"), ("gopher", b"/z.zip/sub"), ("gopher", b"/f.txt"), ("gopherp_info", b"/f.txt"),
     ("gopher", b"/m.mbox"), ("gopher", b"/m.mbox|/MBOX-MESSAGE/2"), ("gopher", b"/gm"), ("wap", b"/a"), ("spartan", b"/"),
     ("http", b"/h.html"), ("gopher", b"/nope"), ("gopherp", b"/t.html.tal"),
+    # every directory of the tree listed as a plain directory (leaves a cache file there) ...
+    ("gopher", b"/md/cur"), ("gopher", b"/md/new"), ("gopher", b"/md/tmp"), ("gopher", b"/.cap"), ("gopher", b"/a/deep"), ("gopher", b"/emptydir"),
+    ("gopher", b"/z.zip"), ("gopher", b"/gm/."), ("gopher", b"/md/."),
+    # ... and one observer per handler kind
+    ("gopher", b"/md"), ("gopherp_dir", b"/md"), ("gopher", b"/md|/MAILDIR-MESSAGE/1"), ("gopher", b"/z.zip/f.txt"), ("gopherp_dir", b"/gm"),
+    ("gopher", b"/x.gophermap"), ("gopher", b"/s.sh"), ("gopher", b"/p.pyg"), ("gopher", b"/c.txt.gz"), ("http", b"/noext"),
 ]
 
 _DATE = [
@@ -293,8 +306,8 @@ def run(ck):
     ck.pmap(_shard_a, shards)
     depth = 3 if ck.tier == "quick" else 4
     menu = range(len(MENU_B)) if ck.tier == "thorough" else range(12)
-    hists = []
-    for d in range(2, depth + 1):
+    hists = list(itertools.product(range(len(MENU_B)), repeat=2))  # every ordered pair of the full menu
+    for d in range(3, depth + 1):
         hists.extend(itertools.product(menu, repeat=d))
     if ck.tier == "thorough":
         hists = [h for h in hists if len(h) < 4 or all(i < 10 for i in h)]
@@ -307,7 +320,7 @@ def run(ck):
     ck.rule = (
         "(a) every request = wrapper x encoding x path (<=2 segments over %d segments x 3 separators, <=3 over the core alphabet, "
         "plus %d edge selectors) + %d raw first lines x {plain,TLS}, x handler lists {full, default}; distinct = (protocol, response class, verdict). "
-        "(b) all histories of length 2..%d over a menu of %d read-only requests with the cache on, length 2 with the cache off; "
+        "(b) all ordered pairs over the full menu of read-only requests and all histories of length 3..%d over the first %d of them with the cache on, pairs with the cache off; "
         "state = (tree digest incl. cache files, lazies initialised, last request)"
         % (len(alphabet.SEGMENTS), len(EDGE_SELECTORS), len(RAW_LINES), depth, len(list(menu)))
     )
